@@ -1,34 +1,26 @@
 CONSTANTS
-  NP = 2
-  NA = 1
-  Quick = TRUE
+  NPts = 2
+  NFr = 1
   PNames <- MC_PNames
   ANames <- MC_ANames
   PRates <- MC_PRates
   ARates <- MC_ARates
-  MaxFrames = 2
+  MaxFrames = 1
   MaxPts = 2
-  MaxCh = 1
+  MaxCh = 2
   FrameKinds <- MC_FrameKinds
   ColKinds <- MC_ColKinds
   Tags <- MC_Tags
-  IdxSlack = 2
+  IdxSlack = 1
   UserParams <- MC_UserParams
   LockNames <- MC_LockNames
   CallerIds <- MC_CallerIds
-  Lookups = FALSE
-  Phased = FALSE
+  Lookups = TRUE
+  Phased = TRUE
 INIT Init
 NEXT Next
 VIEW View
+INVARIANT LookupConsistent
+INVARIANT NamesTrimmed
 INVARIANT MandInv
-INVARIANT AgreePointsInv
-INVARIANT AgreeFramesInv
-INVARIANT AgreeAnalogsInv
-INVARIANT AgreeRateInv
-INVARIANT AgreeLabelsInv
-INVARIANT ConformingAccepted
-PROPERTY RefusedUnchanged
-PROPERTY FrameStoreOK
-PROPERTY ColumnsOK
 CHECK_DEADLOCK FALSE
